@@ -97,6 +97,74 @@ fn built_from<S: Spec>(bytes: &[u8], leading_zero_blocks: usize, r: &mut Report,
     }
 }
 
+/// seed_from_u64(x) against from_seed(documented expansion of x) (ISAAC: against the
+/// reference model seeded the documented way); false after reporting a violation
+fn check_u64<S: Spec>(x: u64, sub: &str, id: u64, r: &mut Report) -> bool {
+    let g = S::R::seed_from_u64(x);
+    let bad = match expand::<S>(x) {
+        Some(seed) => {
+            let h = S::from_seed(&seed);
+            if same::<S>(&g, &h, r) { None } else { Some(json!({"expansion": hex(&seed)})) }
+        }
+        None if S::NAME == "IsaacRng" => {
+            let mut m = isaac::isaac32_from_u64(x);
+            matches_model::<S>(&g, &mut || m.next() as u64, r)
+                .map(|(k, w, o)| json!({"position": k, "expected": hx64(w), "observed": hx64(o)}))
+        }
+        None => {
+            let mut m = isaac::isaac64_from_u64(x);
+            matches_model::<S>(&g, &mut || m.next(), r)
+                .map(|(k, w, o)| json!({"position": k, "expected": hx64(w), "observed": hx64(o)}))
+        }
+    };
+    if let Some(mut d) = bad {
+        d["type"] = json!(S::NAME);
+        d["x"] = json!(hx64(x));
+        r.violation(format!("{}:seed_from_u64!=from_seed(expansion)", S::NAME), sub, id, d);
+        return false;
+    }
+    r.distinct(hkey(&[&"u64", &S::NAME, &x]));
+    true
+}
+
+/// Arguments of seed_from_u64 whose documented SplitMix64 expansion is STRUCTURED in a
+/// way no formula reaches (the expansion words XOR or add up to zero, two words are
+/// equal, a word is 0 / all ones): about 2^-32 of all arguments each, so they are searched
+/// for on the reference model (2^22 consecutive arguments per case, a few ns each) and
+/// every hit is then checked on every generator type.
+fn expansion_sweep(sub: &str, id: u64, r: &mut Report) {
+    const PHI: u64 = 0x9e37_79b9_7f4a_7c15;
+    let mut p = Prng::new(id);
+    let start = p.u64();
+    let n: u64 = if crate::util::REDUCED.load(std::sync::atomic::Ordering::Relaxed) { 1 << 8 } else { 1 << 22 };
+    let fin = vigna::SplitMix::fin64;
+    let mut hits: Vec<(u64, &'static str)> = Vec::new();
+    let mut c1 = start.wrapping_add(PHI);
+    for k in 0..n {
+        let x = start.wrapping_add(k);
+        let (z1, z2) = (fin(c1), fin(c1.wrapping_add(PHI)));
+        c1 = c1.wrapping_add(1);
+        let (a, b, c, d) = (z1 as u32, (z1 >> 32) as u32, z2 as u32, (z2 >> 32) as u32);
+        let what = if a ^ b ^ c ^ d == 0 { "xor_of_four_words_zero" }
+            else if a.wrapping_add(b).wrapping_add(c).wrapping_add(d) == 0 { "sum_of_four_words_zero" }
+            else if a == b { "first_two_words_equal" }
+            else if a == c || b == d || a == d || b == c || c == d { "two_words_equal" }
+            else if a == 0 || b == 0 || c == 0 || d == 0 { "zero_word" }
+            else if a == u32::MAX || b == u32::MAX { "ones_word" }
+            else { continue };
+        hits.push((x, what));
+    }
+    r.covn("expansion_sweep_arguments", n);
+    for (x, what) in hits {
+        for ti in 0..N_TYPES {
+            let ok = with_spec!(ti, S => check_u64::<S>(x, sub, id, r));
+            if !ok { return; }
+        }
+        r.cov(&format!("expansion_sweep_hit:{}", what));
+        r.cov("expansion_sweep_hits");
+    }
+}
+
 fn case_typed<S: Spec>(sub: &str, id: u64, r: &mut Report) {
     let mut p = Prng::new(id);
     let wb = (S::FAMILY.native_bits() / 8) as usize;
@@ -104,30 +172,7 @@ fn case_typed<S: Spec>(sub: &str, id: u64, r: &mut Report) {
         "seed_from_u64" => {
             for k in 0..32 {
                 let x = special_u64(&mut p, k);
-                let g = S::R::seed_from_u64(x);
-                let bad = match expand::<S>(x) {
-                    Some(seed) => {
-                        let h = S::from_seed(&seed);
-                        if same::<S>(&g, &h, r) { None } else { Some(json!({"expansion": hex(&seed)})) }
-                    }
-                    None if S::NAME == "IsaacRng" => {
-                        let mut m = isaac::isaac32_from_u64(x);
-                        matches_model::<S>(&g, &mut || m.next() as u64, r)
-                            .map(|(k, w, o)| json!({"position": k, "expected": hx64(w), "observed": hx64(o)}))
-                    }
-                    None => {
-                        let mut m = isaac::isaac64_from_u64(x);
-                        matches_model::<S>(&g, &mut || m.next(), r)
-                            .map(|(k, w, o)| json!({"position": k, "expected": hx64(w), "observed": hx64(o)}))
-                    }
-                };
-                if let Some(mut d) = bad {
-                    d["type"] = json!(S::NAME);
-                    d["x"] = json!(hx64(x));
-                    r.violation(format!("{}:seed_from_u64!=from_seed(expansion)", S::NAME), sub, id, d);
-                    return;
-                }
-                r.distinct(hkey(&[&"u64", &S::NAME, &x]));
+                if !check_u64::<S>(x, sub, id, r) { return; }
             }
             r.cov(&format!("seed_from_u64:{}", S::NAME));
         }
@@ -292,6 +337,9 @@ fn case(sub: &str, id: u64, r: &mut Report) {
     if sub == "cores" {
         return core_case(sub, id, r);
     }
+    if sub == "expansion_sweep" {
+        return expansion_sweep(sub, id, r);
+    }
     let ti = Prng::new(id ^ 0x4321).below(N_TYPES as u64) as usize;
     with_spec!(ti, S => case_typed::<S>(sub, id, r));
 }
@@ -307,6 +355,10 @@ pub fn run(ctx: &Ctx, only: Option<&Only>) -> Report {
     let mut total = drive(ctx, "seed_from_u64", 12_000, secs * 0.5, |id, r| case("seed_from_u64", id, r));
     total.merge(drive(ctx, "from_rng", 12_000, secs * 0.45, |id, r| case("from_rng", id, r)));
     total.merge(drive(ctx, "cores", 1_500, secs * 0.05, |id, r| case("cores", id, r)));
+    // 2048 x 2^22 = 2^33 arguments per unit of scale: 2 expected hits per 2^-32 condition
+    total.merge(drive(ctx, "expansion_sweep", 2_048, secs * 0.3, |id, r| case("expansion_sweep", id, r)));
+    total.floor("expansion_sweep_arguments", 1 << 33);
+    total.floor("expansion_sweep_hits", 4);
     total.floor("core_routes", 500);
     for n in TYPE_NAMES {
         total.floor(&format!("seed_from_u64:{}", n), 50);
